@@ -142,6 +142,100 @@ func verifPick(name string, lo, hi int) int {
 
 func verifIsConcrete(x int) bool { return true }
 
+func verifIteInt(c bool, a, b int) int {
+	if c {
+		return a
+	}
+	return b
+}
+
+func verifIteByte(c bool, a, b byte) byte {
+	if c {
+		return a
+	}
+	return b
+}
+
+func verifIteBool(c bool, a, b bool) bool {
+	if c {
+		return a
+	}
+	return b
+}
+
+// verifSnapByte reads byte j of the content remembered by verifSnapshot.
+func verifSnapByte(h int, j int) byte {
+	s := verifSnaps[h-1][1]
+	if j < 0 || j >= len(s) {
+		return 0
+	}
+	return s[j]
+}
+
+// verifAll: for all j in [0,n): f(j). The solver treats j as a fresh (Skolem) variable, so the
+// result may only be used as the condition of verifAssert.
+func verifAll(n int, f func(j int) bool) bool {
+	for j := 0; j < n && j < 1<<22; j++ {
+		if !f(j) {
+			return false
+		}
+	}
+	return true
+}
+
+func verifObjID(x interface{}) int { return 0 }
+
+// ropes: reference byte streams. Natively plain byte slices.
+var verifRopes = map[int][]byte{}
+
+func verifRopeNew() int {
+	id := len(verifRopes) + 1
+	verifRopes[id] = []byte{}
+	return id
+}
+func verifRopeAppend(id int, p []byte)     { verifRopes[id] = append(verifRopes[id], p...) }
+func verifRopeAppendByte(id int, c byte)   { verifRopes[id] = append(verifRopes[id], c) }
+func verifRopeTrunc(id int, n int) {
+	if n < 0 {
+		n = 0
+	}
+	if n < len(verifRopes[id]) {
+		verifRopes[id] = verifRopes[id][:n]
+	}
+}
+func verifRopeInsert(id int, cut int, p []byte) {
+	r := verifRopes[id]
+	if cut < 0 {
+		cut = 0
+	}
+	if cut > len(r) {
+		cut = len(r)
+	}
+	n := append([]byte{}, r[:cut]...)
+	n = append(n, p...)
+	n = append(n, r[cut:]...)
+	verifRopes[id] = n
+}
+func verifRopeMove(dst, src int) {
+	verifRopes[dst] = append(verifRopes[dst], verifRopes[src]...)
+	verifRopes[src] = []byte{}
+}
+func verifRopeLen(id int) int { return len(verifRopes[id]) }
+func verifRopeMatch(id int, pos int, p []byte) bool {
+	r := verifRopes[id]
+	if pos < 0 || pos+len(p) > len(r) {
+		return len(p) == 0
+	}
+	return bytes.Equal(r[pos:pos+len(p)], p)
+}
+func verifRopeByte(id int, pos int) byte {
+	r := verifRopes[id]
+	if pos < 0 || pos >= len(r) {
+		return 0
+	}
+	return r[pos]
+}
+
 // verifScribblePool makes a freed-too-early pool block observable natively: it takes blocks
 // of every size class from the pool, overwrites them and hands them back. Symbolically it
 // is a no-op (the ledger assertions at the allocator stubs decide there).
